@@ -57,6 +57,8 @@ def run(spec):
     signal.signal(signal.SIGVTALRM, _on_timer)
     n_cases = 0
     timeouts = 0
+    abandoned = 0
+    known = set(spec.get('known_mechanisms', ()))
     slow = []
     for idx, case in cases:
         t_case = time.time()
@@ -74,13 +76,25 @@ def run(spec):
         # factor > 1 000; the big families legitimately take up to minutes and get the generous one
         small = isinstance(fam, str) and (fam.startswith('EXH') or fam in ('RND', 'RNDs', 'STRUCT', 'NEAR', 'TGT', 'HOSTILE', 'valid', 'triple', 'dict', 'pair', 'random'))
         limit = min(cpu_limit, 300.0) if small else cpu_limit
+        # this shard already holds a violation that is no listed finding: the verdict of the run is
+        # settled, so a case that needs minutes is abandoned (counted, never a verdict of its own)
+        settled = any(v.get('mechanism') not in known for v in col.violations)
+        if settled:
+            limit = min(limit, 120.0)
         signal.setitimer(signal.ITIMER_VIRTUAL, limit)
         try:
             mod.run_case(concepts, case, spec)
         except core.CaseTooLarge:
             col.count('cases_skipped_too_large')
         except core.CaseTimeout:
-            if col.depth:
+            if settled:
+                col.depth = 0
+                col.count('slow_cases_abandoned_after_a_violation')
+                abandoned += 1
+                if abandoned >= 3:
+                    col.count('shard_stopped_after_repeated_timeouts')
+                    break
+            elif col.depth:
                 col.depth = 0
                 col.harness_error('cpu budget exceeded inside monitor code')
             else:
